@@ -535,6 +535,19 @@ impl<Front: SocketHandler> ConnectionH1<Front> {
         };
         self.timeout_container.reset();
         let stream = &mut context.streams[stream_id];
+        // A forcefully terminated answer (the backend's stream was reset, refused
+        // by a GOAWAY, or its response failed a check) has no HTTP/1.1 wire form:
+        // where the H2 converter emits RST_STREAM, this side used to go quiet and
+        // leave the client waiting for the frontend timeout. If nothing of the
+        // response went out yet the client is owed a 502; once part of it is on
+        // the wire, closing the connection is the only explicit abort there is.
+        if matches!(self.position, Position::Server) && stream.back.is_error() {
+            if stream.back.consumed {
+                return self.defer_close_for_tls_flush("forcefully-terminated");
+            }
+            let answers_rc = context.listener.borrow().get_answers().clone();
+            set_default_answer(stream, &mut self.readiness, 502, &answers_rc.borrow());
+        }
         let parts = stream.split(&self.position);
         let kawa = parts.wbuffer;
         // Apply per-frontend response-side header edits stashed by the
